@@ -24,6 +24,7 @@ func init() {
 }
 
 func runC24(c *eng.Ctx) {
+	defer runC24Cursor(c)
 	p := c.P
 	// ---- R1 integrity gates ----
 	{
